@@ -3,6 +3,7 @@ package main
 import (
 	"encoding/json"
 	"fmt"
+	"math/big"
 	"go/token"
 	"go/types"
 	"os"
@@ -463,6 +464,7 @@ func (e *Engine) VerifyFunc(fc *FuncContract) *FuncResult {
 		mode = fc.Mode
 	}
 	vc := newVC(e, mode, fc.Key())
+	vc.bseqExt = fc.Opts["bseq-ext"] != ""
 	res.VC = vc
 	x := &Exec{vc: vc, eng: e, fc: fc, top: fn, safety: !fc.NoSafety, siteSeq: map[string]int{}, overflw: fc.Overflow}
 	names := x.contractNames(fc)
@@ -883,6 +885,9 @@ func (e *Engine) smtFile(vc *VC, o *Obligation, withModel bool) string {
 			}
 		}
 	}
+	if vc.ar.Mode == ModeInt && strings.Contains(body.String(), "(int_or ") {
+		sb.WriteString(intOrAxioms())
+	}
 	for _, d := range vc.decls[nBuiltin:] {
 		sb.WriteString(d)
 		sb.WriteByte('\n')
@@ -940,4 +945,15 @@ func hasProp(props []string, id string) bool {
 		}
 	}
 	return false
+}
+
+// intOrAxioms: in Int mode | is uninterpreted except for the byte-assembly idiom: or-ing a value
+// below 2^k with a non-negative multiple of 2^k is addition (k = 8, 16, ..., 56).
+func intOrAxioms() string {
+	var sb strings.Builder
+	for k := 8; k <= 56; k += 8 {
+		m := new(big.Int).Lsh(big.NewInt(1), uint(k)).String()
+		fmt.Fprintf(&sb, "(assert (forall ((a Int) (b Int)) (! (=> (and (<= 0 a) (< a %s) (<= 0 b) (= (mod b %s) 0)) (and (= (int_or a b) (+ a b)) (= (int_or b a) (+ a b)))) :pattern ((int_or a b)) :pattern ((int_or b a)))))\n", m, m)
+	}
+	return sb.String()
 }
